@@ -93,7 +93,7 @@ pub fn check(ctx: &mut Ctx) {
                 3 => ("sum(x)".to_string(), Kind::SumFloat),
                 4 => (format!("min({})", r.pick(&["n", "x"])), Kind::Min),
                 5 => (format!("max({})", r.pick(&["n", "x"])), Kind::Max),
-                6 => (format!("count_distinct({})", r.pick(&["k", "s", "n", "b"])), Kind::Distinct),
+                6 => (format!("count_distinct({})", r.pick(&["k", "s", "n", "b", "t"])), Kind::Distinct),
                 7 => (format!("p{}({})", r.pick(&[50, 90, 10]), r.pick(&["n", "x"])), Kind::Pct),
                 _ => ("avg(x)".to_string(), Kind::Avg),
             };
